@@ -1,6 +1,6 @@
 """C01 each operation returns the region it names (partly decided: the finite tables every output edge is selected
 through, and the plumbing from the public entry points to them)."""
-from rules import booltables as bt, oprules, cerules
+from rules import booltables as bt, oprules, cerules, pirules
 
 LEVEL = 'other'
 EXPLANATION = __doc__
@@ -9,7 +9,10 @@ EXPLANATION = __doc__
 def run(ctx, rep):
     bt.check_select(ctx, rep)
     bt.check_trans(ctx, rep, 'T-trans-normal', ['Normal'])
+    bt.check_trans(ctx, rep, 'T-trans-coincident', ['SameTransition', 'DifferentTransition'])
     bt.check_prop(ctx, rep)
+    # the tables classify sub-segments: they give the named region only if every segment is split where another one meets it
+    pirules.check_endpoint_guards(ctx, rep)
     oprules.check_trivial(ctx, rep)
     oprules.check_forward(ctx, rep)
     oprules.check_pipeline(ctx, rep)
